@@ -1,6 +1,7 @@
 package main
 
 import (
+	"strconv"
 	"fmt"
 	"go/constant"
 	"go/types"
@@ -72,8 +73,61 @@ func c05Rules(p *Prog, r *Result) *RuleSet {
 		return ok && typeShort(pr.Type()) == "fdo/kex.Session"
 	}
 	macValue := hasProv("field:fdo/cose.Mac0.Value")
+	// "plain": a uint8 value was found outside the tunnelled range (<= lo or
+	// >= hi). Kept per value so that a classification helper such as
+	// `func isTunneled(t uint8) bool` carries over to the value it was given.
+	plain := AtomDef{Name: "plain", EdgeDyn: func(m *Matcher, pd Pred, holds bool) []Atom {
+		isU8 := func(v ssa.Value) bool { return v.Type().Underlying().String() == "uint8" }
+		var x ssa.Value
+		switch pd.Kind {
+		case "lt":
+			if !holds && isConstInt(pd.X, lo) && isU8(pd.Y) { // !(lo < x)
+				x = pd.Y
+			}
+			if !holds && isConstInt(pd.Y, hi) && isU8(pd.X) { // !(x < hi)
+				x = pd.X
+			}
+		case "le":
+			if holds && isConstInt(pd.Y, lo) && isU8(pd.X) { // x <= lo
+				x = pd.X
+			}
+			if holds && isConstInt(pd.X, hi) && isU8(pd.Y) { // hi <= x
+				x = pd.Y
+			}
+		case "eq":
+			if holds && isConstInt(pd.Y, hi) && isU8(pd.X) {
+				x = pd.X
+			}
+			if holds && isConstInt(pd.X, hi) && isU8(pd.Y) {
+				x = pd.Y
+			}
+		}
+		if x == nil {
+			return nil
+		}
+		return []Atom{Atom("v:plain:" + canon(x))}
+	}}
+	translate := func(m *Matcher, fact Atom, ops []ssa.Value) []Atom {
+		if !strings.HasPrefix(fact, "v:plain:$") {
+			return nil
+		}
+		i, err := strconv.Atoi(fact[len("v:plain:$"):])
+		if err != nil || i >= len(ops) {
+			return nil
+		}
+		var out []Atom
+		if respType(m, ops[i]) {
+			out = append(out, "resp-plain")
+		}
+		if u8param(m, ops[i]) {
+			out = append(out, "req-plain")
+		}
+		return out
+	}
 	return &RuleSet{
+		Translate: translate,
 		Atoms: []AtomDef{
+			plain,
 			// handler, outbound
 			leLo("resp-le-lo", respType), geHi("resp-ge-hi", respType),
 			errNil("srv-encrypt-ok", "Session.Encrypt of the responder's result returned no error", named("fdo/kex.Session.Encrypt"),
@@ -121,8 +175,8 @@ func c05Rules(p *Prog, r *Result) *RuleSet {
 			errNil("crypter-decrypt-ok", "Crypter.Decrypt returned no error", named("fdo/cose.Crypter.Decrypt"), nil),
 		},
 		Derive: []Derivation{
-			{"tunnel-out", []Atom{"resp-le-lo"}}, {"tunnel-out", []Atom{"resp-ge-hi"}}, {"tunnel-out", []Atom{"srv-encrypt-ok"}},
-			{"tunnel-in", []Atom{"req-le-lo"}}, {"tunnel-in", []Atom{"req-ge-hi"}}, {"tunnel-in", []Atom{"srv-decrypt-ok"}},
+			{"tunnel-out", []Atom{"resp-le-lo"}}, {"tunnel-out", []Atom{"resp-ge-hi"}}, {"tunnel-out", []Atom{"srv-encrypt-ok"}}, {"tunnel-out", []Atom{"resp-plain"}},
+			{"tunnel-in", []Atom{"req-le-lo"}}, {"tunnel-in", []Atom{"req-ge-hi"}}, {"tunnel-in", []Atom{"srv-decrypt-ok"}}, {"tunnel-in", []Atom{"req-plain"}},
 			{"client-out", []Atom{"sess-nil"}}, {"client-out", []Atom{"cli-encrypt-ok"}},
 			{"client-in", []Atom{"sess-nil"}}, {"client-in", []Atom{"resp-is-error"}}, {"client-in", []Atom{"cli-decrypt-ok"}},
 			{"authenticated", []Atom{"macalg-zero"}}, {"authenticated", []Atom{"mac-digest-ok", "mac-eq"}},
